@@ -156,6 +156,9 @@ theorem laws : Laws prims where
   blake_len := by
     intro n m
     exact ⟨List.length_replicate, isBytes_replicate _ _ (tagOf_lt _)⟩
+  sha_len := by
+    intro m
+    exact ⟨List.length_replicate, isBytes_replicate _ _ (tagOf_lt _)⟩
   seal_open := by
     intro k n m
     simp [prims]
